@@ -129,6 +129,22 @@ func (s *c25ES) releaseOne() bool {
 	return true
 }
 
+// c25Dur reads a timeout field: `<n>` = milliseconds, `<n>ns` / `<n>us` = that many nano/microseconds (may be negative).
+func c25Dur(f string) (time.Duration, bool) {
+	unit := time.Millisecond
+	switch {
+	case strings.HasSuffix(f, "ns"):
+		unit, f = time.Nanosecond, strings.TrimSuffix(f, "ns")
+	case strings.HasSuffix(f, "us"):
+		unit, f = time.Microsecond, strings.TrimSuffix(f, "us")
+	}
+	n, err := strconv.ParseInt(f, 10, 64)
+	if err != nil {
+		return 0, false
+	}
+	return time.Duration(n) * unit, true
+}
+
 type c25QS struct {
 	rec      *agent.VerifRecorder
 	resp     *serf.QueryResponse
@@ -270,13 +286,13 @@ func c25Exec(ops []string) []string {
 			outs = append(outs, c25Stress(string(fl), n))
 		case len(f) == 4 && f[0] == "qs":
 			seq, e1 := strconv.ParseUint(f[1], 10, 64)
-			ms, e2 := strconv.Atoi(f[3])
-			if e1 != nil || e2 != nil {
+			tmo, ok2 := c25Dur(f[3])
+			if e1 != nil || !ok2 {
 				outs = append(outs, "bad-op")
 				continue
 			}
 			q := &c25QS{rec: agent.NewVerifRecorder(false), returned: make(chan struct{})}
-			q.resp = serf.VerifIPCNewQueryResponse(16, time.Duration(ms)*time.Millisecond, f[2] == "1")
+			q.resp = serf.VerifIPCNewQueryResponse(16, tmo, f[2] == "1")
 			go func() {
 				agent.VerifQueryStream(q.rec, seq, q.resp)
 				close(q.returned)
@@ -338,13 +354,13 @@ func c25Exec(ops []string) []string {
 			outs = append(outs, strconv.Itoa(other))
 		case len(f) == 6 && f[0] == "e2eq":
 			seq, e1 := strconv.ParseUint(f[1], 10, 64)
-			ms, e2 := strconv.Atoi(f[2])
+			tmo, ok2 := c25Dur(f[2])
 			delay, e3 := strconv.Atoi(f[5])
-			if e1 != nil || e2 != nil || e3 != nil {
+			if e1 != nil || !ok2 || e3 != nil {
 				outs = append(outs, "bad-op")
 				continue
 			}
-			outs = append(outs, c25E2EQuery(seq, ms, f[3] == "1", f[4] == "1", delay))
+			outs = append(outs, c25E2EQuery(seq, tmo, f[3] == "1", f[4] == "1", delay))
 		default:
 			outs = append(outs, "bad-op")
 		}
@@ -439,7 +455,7 @@ func (c *c25Conn) send(objs ...string) {
 
 // header reads one reply header.
 func (c *c25Conn) header() (uint64, string, error) {
-	_ = c.c.SetReadDeadline(time.Now().Add(c25Wait))
+	_ = c.c.SetReadDeadline(time.Now().Add(c25Deadline()))
 	var v any
 	if err := c.dec.Decode(&v); err != nil {
 		return 0, "", err
@@ -612,7 +628,7 @@ func c25E2EStream(filter string, seq uint64, names []string) (string, int) {
 	}
 }
 
-func c25E2EQuery(seq uint64, timeoutMs int, ack, respond bool, delayUs int) string {
+func c25E2EQuery(seq uint64, timeout time.Duration, ack, respond bool, delayUs int) string {
 	env, err := c24GetEnv()
 	if err != nil {
 		return "ERR env " + err.Error()
@@ -648,7 +664,7 @@ func c25E2EQuery(seq uint64, timeoutMs int, ack, respond bool, delayUs int) stri
 	}
 	c.send("M"+mKV("Command", mS("handshake"))+","+mKV("Seq", "i1"), "M"+mKV("Version", "i1"),
 		"M"+mKV("Command", mS("query"))+","+mKV("Seq", "i"+strconv.FormatUint(seq, 10)),
-		"M"+mKV("Name", mS("vq"))+","+mKV("Payload", "b"+hexs("ping"))+","+mKV("RequestAck", a)+","+mKV("Timeout", "i"+strconv.Itoa(timeoutMs*1000000)))
+		"M"+mKV("Name", mS("vq"))+","+mKV("Payload", "b"+hexs("ping"))+","+mKV("RequestAck", a)+","+mKV("Timeout", "i"+strconv.FormatInt(int64(timeout), 10)))
 	for i := 0; i < 2; i++ {
 		if s, es, err := c.header(); err != nil || es != "" {
 			return fmt.Sprintf("ERR setup reply %d: %v %q", i, err, es)
@@ -663,6 +679,10 @@ func c25E2EQuery(seq uint64, timeoutMs int, ack, respond bool, delayUs int) stri
 		if err != nil {
 			if sawDone {
 				break // EOF after we half-closed: nothing followed the done record
+			}
+			if ne, ok := err.(net.Error); (ok && ne.Timeout()) || strings.Contains(err.Error(), "i/o timeout") {
+				c25Broken = true
+				return "TIMEOUT no completion record after " + c24Join(out)
 			}
 			return "ERR read " + err.Error() + " after " + c24Join(out)
 		}
@@ -679,7 +699,7 @@ func c25E2EQuery(seq uint64, timeoutMs int, ack, respond bool, delayUs int) stri
 		if t == "done" && !sawDone {
 			sawDone = true
 			// let anything the agent might still send arrive, then half-close: the agent answers with EOF
-			time.Sleep(time.Duration(300+timeoutMs*20) * time.Microsecond)
+			time.Sleep(300*time.Microsecond + timeout/50)
 			_ = c.c.(*net.TCPConn).CloseWrite()
 		}
 	}
@@ -808,6 +828,28 @@ func c25Gen(rng *rand.Rand, tier string) []Case {
 		ns = append(ns, hexs("Deploy-EU"), hexs("deploy-eu"), "q"+hexs("Uptime"), "q"+hexs("uptime"), hexs("a"), hexs("A"))
 		ops := []string{fmt.Sprintf("e2e %s %d %s", hexs(fl), 2+rng.Intn(100000), strings.Join(ns, ",")), "e2eother"}
 		out = append(out, Case{ID: fmt.Sprintf("e2e%d", i), Ops: ops, Nontrivial: true, Tags: []string{"e2e-stream"}})
+	}
+	// boundary timeouts: the deadline has (all but) passed when the stream goroutine starts — 1 ns, 1 µs,
+	// zero and negative durations on the hand-fed query; 1 ns, 1 µs and a negative one over the socket
+	// (a zero Timeout means Serf's default of seconds: thorough tier only)
+	for i, t := range []string{"1ns", "0ns", "-1ns", "1us", "-5000000ns", "1ns", "300us"} {
+		ops := []string{fmt.Sprintf("qs %d %d %s", 40+i, i%2, t)}
+		if i >= 4 {
+			ops = append(ops, "qack "+hexs("n1"), "qresp "+hexs("n1")+" "+hexs("p1"))
+		}
+		if i%3 == 0 {
+			ops = append(ops, "qclose")
+		}
+		ops = append(ops, "qend")
+		out = append(out, Case{ID: fmt.Sprintf("qs-expired%d", i), Ops: ops, Nontrivial: true, Tags: []string{"query-expired"}})
+	}
+	e2eT := []string{"1ns", "1us", "-1ns", "40us"}
+	if tier == "thorough" {
+		e2eT = append(e2eT, "0ns", "-1000000000ns", "2ns", "500ns")
+	}
+	for i, t := range e2eT {
+		ops := []string{fmt.Sprintf("e2eq %d %s %d %d %d", 900+i, t, i%2, (i/2)%2, 0)}
+		out = append(out, Case{ID: fmt.Sprintf("e2eq-expired%d", i), Ops: ops, Nontrivial: true, Tags: []string{"query-expired"}})
 	}
 	// end to end: query command, acked and answered by the node itself, short timeouts
 	for i := 0; i < nE2EQ; i++ {
